@@ -12,11 +12,14 @@ CONSTANTS
   DEV_ForkSharesLanelets = FALSE
   ForkAll = FALSE
   DEV_DrawMovesVertices = FALSE
+  DEV_RectKeepsExportedPolygon = FALSE
+  ShapeHist = FALSE
   DEV_DiscHalfRadius = FALSE
 INVARIANT TypeOK
 INVARIANT IndexMirrors
 INVARIANT BufMirrors
 INVARIANT OriginalIsolated
+INVARIANT ShapeAnswers
 INVARIANT DirtyOnlyPending
 INVARIANT QueriesExact
 INVARIANT LawsPoint
